@@ -212,7 +212,8 @@ int yr_parser_emit_pushes_for_strings(
       if ((*target_identifier == '\0' && *string_identifier == '\0') ||
           *target_identifier == '*')
       {
-        yr_parser_emit_with_arg_reloc(yyscanner, OP_PUSH, string, NULL, NULL);
+        FAIL_ON_ERROR(yr_parser_emit_with_arg_reloc(
+            yyscanner, OP_PUSH, string, NULL, NULL));
 
         string->flags |= STRING_FLAGS_REFERENCED;
         string->flags &= ~STRING_FLAGS_FIXED_OFFSET;
@@ -1182,10 +1183,10 @@ int yr_parser_reduce_string_identifier(
   {
     if (compiler->loop_for_of_var_index >= 0)  // inside a loop ?
     {
-      yr_parser_emit_with_arg(
-          yyscanner, OP_PUSH_M, compiler->loop_for_of_var_index, NULL, NULL);
+      FAIL_ON_ERROR(yr_parser_emit_with_arg(
+          yyscanner, OP_PUSH_M, compiler->loop_for_of_var_index, NULL, NULL));
 
-      yr_parser_emit(yyscanner, instruction, NULL);
+      FAIL_ON_ERROR(yr_parser_emit(yyscanner, instruction, NULL));
 
       YR_RULE* current_rule = _yr_compiler_get_rule_by_idx(
           compiler, compiler->current_rule_idx);
@@ -1346,11 +1347,13 @@ int yr_parser_reduce_import(yyscan_t yyscanner, SIZED_STRING* module_name)
   FAIL_ON_ERROR(yr_object_create(
       OBJECT_TYPE_STRUCTURE, module_name->c_string, NULL, &module_structure));
 
-  FAIL_ON_ERROR(yr_hash_table_add(
-      compiler->objects_table,
-      module_name->c_string,
-      ns->name,
-      module_structure));
+  FAIL_ON_ERROR_WITH_CLEANUP(
+      yr_hash_table_add(
+          compiler->objects_table,
+          module_name->c_string,
+          ns->name,
+          module_structure),
+      yr_object_destroy(module_structure));
 
   result = yr_modules_do_declarations(module_name->c_string, module_structure);
 
